@@ -136,6 +136,9 @@ func GenProg(r *Rng, cfg ProgCfg) *Prog {
 	}
 	p.MapLower = r.Chance(1, 5)
 	p.LateMode = r.Chance(1, 4)
+	if p.LateMode && r.Chance(1, 2) {
+		p.EarlyMode = 1 + r.Intn(3)
+	}
 	p.LateUnknown = r.Chance(1, 6)
 	p.LateReqOrder = p.ReqOrder && r.Chance(1, 4)
 	if cfg.Help && r.Chance(2, 3) {
@@ -287,7 +290,14 @@ func GenProg(r *Rng, cfg ProgCfg) *Prog {
 				c.Cmds = append(c.Cmds, genCmd(cn, depth+1, taken, false))
 			}
 		}
-		if p.Help != "" && len(c.Cmds) > 0 && cfg.LateOpts > 0 && r.Intn(100) < cfg.LateOpts {
+		if len(c.Cmds) > 1 && cfg.LateOpts > 0 && lateOptionsAccepted() && r.Intn(100) < cfg.LateOpts/2 {
+			// an option declared between two commands of its level: creating the next command copies it down the whole subtree
+			k := []Kind{KBool, KString, KInt}[r.Intn(3)]
+			o := &Opt{ID: id, Kind: k, Name: fmt.Sprintf("i%di", id), Mid: true, UseVar: r.Bool(), Desc: fmt.Sprintf("D%dD", id)}
+			id++
+			c.Opts = append(c.Opts, o)
+		}
+		if p.Help != "" && len(c.Cmds) > 0 && cfg.LateOpts > 0 && lateOptionsAccepted() && r.Intn(100) < cfg.LateOpts {
 			// an option declared after the commands of its level (names outside the ordinary alphabets: no clash below)
 			k := []Kind{KBool, KString, KInt, KStrings}[r.Intn(4)]
 			o := &Opt{ID: id, Kind: k, Name: fmt.Sprintf("j%dj", id), Late: true, UseVar: r.Bool(), Desc: fmt.Sprintf("D%dD", id)}
@@ -375,3 +385,26 @@ func RuneCount(s string) int { return utf8.RuneCountInString(s) }
 
 // Runes - s split into its UTF-8 sequences (invalid bytes one by one), as strings.Split(s, "") does.
 func Runes(s string) []string { return strings.Split(s, "") }
+
+var lateProbe struct {
+	done bool
+	ok   bool
+}
+
+// lateOptionsAccepted - the documentation asks for options to be declared before the commands of their level; the pinned
+// library accepts the other order and copies such options down on the next NewCommand/HelpCommand. The generators use
+// that order only when a probe shows the library under test (still) accepts and honours it, so that a library that
+// enforces the documented order is not reported.
+func lateOptionsAccepted() bool {
+	if lateProbe.done {
+		return lateProbe.ok
+	}
+	lateProbe.done = true
+	late := &Opt{ID: 1, Kind: KBool, Name: "j1j", Late: true}
+	mid := &Opt{ID: 2, Kind: KBool, Name: "i2i", Mid: true}
+	p := &Prog{Help: "help", Root: &Cmd{Unknown: -1, HasFn: true, Opts: []*Opt{{ID: 0, Kind: KBool, Name: "a"}, late, mid},
+		Cmds: []*Cmd{{Name: "c", Unknown: -1, HasFn: true, Cmds: []*Cmd{{Name: "d", Unknown: -1, HasFn: true}}}, {Name: "e", Unknown: -1, HasFn: true}}}}
+	oc := Run(p, []string{"c", "d", "--j1j", "--i2i"}, false)
+	lateProbe.ok = oc.Panic == "" && !oc.HasErr && oc.Opts["c/d|j1j"].Called && oc.Opts["c/d|i2i"].Called
+	return lateProbe.ok
+}
